@@ -331,3 +331,187 @@ func copyCases(seed uint64, n int) []*CopyCase {
 	}
 	return out
 }
+
+// ---------------------------------------------------------------- hand-ticked histories compared with the model
+
+// HCmd: a command of the kinds the Coq queue automaton knows: noop, kernel
+// (asynchronous: one request, completed by the GPU's answer) and the zero-byte
+// copy that needs no flush (started, no request, completed by the copy
+// middleware's next Tick).
+type HCmd struct {
+	K  string `json:"k"` // noop | kernel | h2d0 | d2h0
+	ID uint64 `json:"id"`
+}
+
+type HEvent struct {
+	E   string   `json:"e"` // tick | answer
+	Q   int      `json:"q,omitempty"`
+	MP  bool     `json:"mp,omitempty"` // Tick's result
+	Obs []uint64 `json:"obs"`
+}
+
+type HandCase struct {
+	Hand          bool     `json:"hand"`
+	Seed          uint64   `json:"seed"`
+	NCtx          int      `json:"nctx"`
+	QCtx          []int    `json:"qctx"`
+	Progs         [][]HCmd `json:"progs"`
+	Events        []HEvent `json:"events"`
+	NotComparable string   `json:"not_comparable,omitempty"`
+	Stuck         string   `json:"stuck,omitempty"`
+	Panic         string   `json:"panic,omitempty"`
+	Coq           string   `json:"coq"`
+}
+
+func runHandCase(c *HandCase) {
+	defer func() {
+		if r := recover(); r != nil {
+			c.Panic = fmt.Sprint(r)
+		}
+		c.Coq = coqHand(c)
+	}()
+	rng := vh.NewRng(c.Seed)
+	const lg = 12
+	ps := uint64(1) << lg
+	d := driver.MakeBuilder().WithEngine(sim.NewSerialEngine()).WithPageTable(vm.NewPageTable(lg)).
+		WithLog2PageSize(lg).WithGlobalStorage(mem.NewStorage(4 * mem.GB)).Build("Driver")
+	d.RegisterGPU(sim.NewPort(nil, 1, 1, "GPU1.CP"), driver.DeviceProperties{CUCount: 4, DRAMSize: 1024 * ps})
+	gpuPort := d.GetPortByName("GPU")
+	conn := &vh.StubConn{}
+	conn.PlugIn(gpuPort)
+	conn.PlugIn(d.GetPortByName("MMU"))
+	ctxs := make([]*driver.Context, c.NCtx)
+	for i := range ctxs {
+		ctxs[i] = d.Init()
+	}
+	nq := len(c.QCtx)
+	qs := make([]*driver.CommandQueue, nq)
+	cmdQ := map[uint64]int{}
+	for q := 0; q < nq; q++ {
+		ctx := ctxs[c.QCtx[q]]
+		qs[q] = d.CreateCommandQueue(ctx)
+		ptr := d.AllocateMemory(ctx, 256)
+		for _, h := range c.Progs[q] {
+			cmdQ[h.ID] = q
+			id := fmt.Sprintf("c%d", h.ID)
+			switch h.K {
+			case "noop":
+				d.Enqueue(qs[q], &driver.NoopCommand{ID: id})
+			case "kernel":
+				d.Enqueue(qs[q], &driver.LaunchKernelCommand{ID: id, DPacket: driver.Ptr(h.ID)})
+			case "h2d0":
+				d.Enqueue(qs[q], &driver.MemCopyH2DCommand{ID: id, Dst: ptr, Src: []byte{}})
+			case "d2h0":
+				d.Enqueue(qs[q], &driver.MemCopyD2HCommand{ID: id, Dst: []byte{}, Src: ptr})
+			}
+		}
+	}
+	pendReq := map[int]sim.Msg{} // queue -> its kernel request at the GPU
+	observe := func() []uint64 {
+		var o []uint64
+		for _, q := range qs {
+			head := uint64(0)
+			if cm := q.Peek(); cm != nil {
+				var id uint64
+				fmt.Sscanf(cm.GetID(), "c%d", &id)
+				head = id + 1
+			}
+			o = append(o, uint64(q.NumCommand()), head, b2u(q.IsRunning))
+		}
+		return append(o, 99, uint64(len(pendReq)), 0)
+	}
+	idle := 0
+	c.Events = nil
+	for len(c.Events) < 400 {
+		var keys []int
+		for q := 0; q < nq; q++ {
+			if _, ok := pendReq[q]; ok {
+				keys = append(keys, q)
+			}
+		}
+		if len(keys) > 0 && (idle > 0 || rng.Intn(3) == 0) {
+			q := keys[rng.Intn(len(keys))]
+			req := pendReq[q].(*protocol.LaunchKernelReq)
+			delete(pendReq, q)
+			if err := gpuPort.Deliver(protocol.NewLaunchKernelRsp(req.Dst, req.Src, req.ID)); err != nil {
+				panic("driver port full")
+			}
+			c.Events = append(c.Events, HEvent{E: "answer", Q: q, Obs: observe()})
+			idle = 0
+			continue
+		}
+		if idle >= 2 {
+			break
+		}
+		mp := d.Tick()
+		for {
+			m := gpuPort.RetrieveOutgoing()
+			if m == nil {
+				break
+			}
+			if r, ok := m.(*protocol.LaunchKernelReq); ok {
+				pendReq[cmdQ[r.PacketAddress]] = r
+			} else {
+				c.NotComparable = fmt.Sprintf("the driver sent a %T: outside the model's command kinds", m)
+			}
+		}
+		c.Events = append(c.Events, HEvent{E: "tick", MP: mp, Obs: observe()})
+		if mp {
+			idle = 0
+		} else {
+			idle++
+		}
+	}
+	for q := 0; q < nq; q++ {
+		if n := qs[q].NumCommand(); n > 0 && c.Stuck == "" {
+			c.Stuck = fmt.Sprintf("queue %d (context %d) still holds %d of its %d commands (IsRunning = %v), the driver reports no "+
+				"progress and nothing is in flight: a drain of it never returns", q, c.QCtx[q], n, len(c.Progs[q]), qs[q].IsRunning)
+		}
+	}
+}
+
+func coqHand(c *HandCase) string {
+	kind := map[string]string{"noop": "Noop", "kernel": "Async", "h2d0": "Empty", "d2h0": "Empty"}
+	var cs, progs, evs []string
+	for _, x := range c.QCtx {
+		cs = append(cs, vh.CoqNat(x))
+	}
+	for _, p := range c.Progs {
+		var xs []string
+		for _, h := range p {
+			xs = append(xs, fmt.Sprintf("mkCmd %d %s", h.ID, kind[h.K]))
+		}
+		progs = append(progs, vh.CoqList(xs))
+	}
+	for _, e := range c.Events {
+		ev := "HTick"
+		if e.E == "answer" {
+			ev = fmt.Sprintf("HAnswer %s", vh.CoqNat(e.Q))
+		}
+		evs = append(evs, fmt.Sprintf("(%s, %s, %s)", ev, vh.CoqBool(e.MP), vh.CoqNList(e.Obs)))
+	}
+	return fmt.Sprintf("mkHand %s %s %s", vh.CoqList(cs), vh.CoqList(progs), vh.CoqList(evs))
+}
+
+func handCases(seed uint64, n int) []*HandCase {
+	r := vh.NewRng(seed ^ 0x4A4D)
+	var out []*HandCase
+	kinds := []string{"noop", "kernel", "h2d0", "d2h0", "h2d0", "kernel"}
+	for i := 0; i < n; i++ {
+		c := &HandCase{Hand: true, Seed: r.U64(), NCtx: 1 + r.Intn(2)}
+		nq := 1 + r.Intn(3)
+		id := uint64(0)
+		for q := 0; q < nq; q++ {
+			c.QCtx = append(c.QCtx, q*c.NCtx/nq)
+			var p []HCmd
+			for k := 1 + r.Intn(5); k > 0; k-- {
+				id++
+				p = append(p, HCmd{K: kinds[r.Intn(len(kinds))], ID: id})
+			}
+			c.Progs = append(c.Progs, p)
+		}
+		runHandCase(c)
+		out = append(out, c)
+	}
+	return out
+}
